@@ -3,7 +3,7 @@ from vf import Query
 SRC = ["src/mc/explo/odpor/Execution.cpp", "src/mc/api/ClockVector.cpp", "src/mc/transition/Transition.cpp", "src/mc/transition/TransitionSynchro.cpp",
        "src/mc/transition/TransitionComm.cpp", "src/mc/transition/TransitionActor.cpp", "src/mc/transition/TransitionAny.cpp", "src/mc/transition/TransitionRandom.cpp",
        "src/mc/smemory/MemoryAccessTrace.cpp", "src/mc/api/BasicTypes.cpp"]
-THOROUGH_MAX = 220  # all quick shapes + a fixed strided sample of the other thorough shapes (lib/vf.py)
+THOROUGH_MAX = 140  # all quick shapes + a fixed strided sample of the other thorough shapes (lib/vf.py)
 META = {
     "level_text": "Bounded symbolic execution of the real odpor::Execution::push_transition (clock vectors) and happens_before on executions of mutex transitions whose "
                   "mutexes are symbolic (the real dependency look-up table and rules decide which pairs depend); compared with the definition (transitive closure of "
